@@ -828,6 +828,12 @@ where
         if errored && !ps_ref.borrow().env().keep_going {
             break;
         }
+        if !locked.is_empty() {
+            // wait_all may have given up every token, including our own
+            // (always so at top level, after the self-test); get one back
+            // before deciding about, waiting for, or starting a locked target.
+            server.ensure_token_or_cheat("self", &mut cheat).await?;
+        }
         if let Some((fid, t)) = locked.pop_front() {
             // TODO(soon): check_sane
             let mut lock = ps_ref.borrow().new_lock(fid);
